@@ -22,7 +22,7 @@ KMSG = re.compile(r"^oomd kill: \S+ \S+ \S+ (\S*) \d+ ruleset:\[(.*?)\] detector
 
 
 def cases(seed, tier):
-    n = 300 if tier == "quick" else 4000
+    n = 800 if tier == "quick" else 4000
     rng = random.Random(seed * 1000003 + 4)
     for i in range(n):
         cid = "C04-%d-%d" % (seed, i)
